@@ -16,10 +16,11 @@
 (* Operands in the plan are tagged by the harness ([sig |-> ..] / [const   *)
 (* |-> ..]) because TLC's equality is typed.                               *)
 (***************************************************************************)
-EXTENDS Circuit, TLCExt
+EXTENDS Circuit, KnownFindings, TLCExt
 
 PIDs == 1..Len(Recs)
-Fail(p, clause, info) == PrintT(<<"FAIL", Recs[p].id, clause, info>>)
+Fail(p, clause, info) == LET kf == IF "stmts" \in DOMAIN Recs[p] THEN KnownFindingR(Recs[p], clause) ELSE "" IN
+                         IF kf # "" THEN PrintT(<<"KNOWN", Recs[p].id, clause, kf>>) ELSE PrintT(<<"FAIL", Recs[p].id, clause, info>>)
 Plan(p) == Recs[p].plan
 PL(p) == Plan(p).placements
 U(p) == Recs[p].u
